@@ -15,12 +15,23 @@ static std::string vec_str(const std::vector<size_t>& v)
 // every one through the status-array constructor and (when all four are equal) also through the
 // single-status constructor.  Encoded as the byte string {0xEE, kind, connect, shape, borders...}.
 static const size_t N_RASTER_SHAPES = 4, N_PROFILE_SIZES = 3;
+static const size_t N_BASE = 256 * N_RASTER_SHAPES * 3 + 16 * N_PROFILE_SIZES + 4 * (N_RASTER_SHAPES * 3 + N_PROFILE_SIZES);
+// second enumerated space: every single override entry (12 in-range positions + 2 out-of-range,
+// 4 statuses) on a 3x4 queen raster under every border combination: 256 x 14 x 4
+static const size_t N_OVR = 256 * 14 * 4;
 static size_t enum_count()
 {
-    return 256 * N_RASTER_SHAPES * 3 + 16 * N_PROFILE_SIZES + 4 * (N_RASTER_SHAPES * 3 + N_PROFILE_SIZES);
+    return N_BASE + N_OVR;
 }
 static std::vector<uint8_t> enum_case(size_t k)
 {
+    if (k >= N_BASE)
+    {
+        k -= N_BASE;
+        size_t combo = k % 256, rest = k / 256;
+        size_t pos = rest % 14, st = rest / 14;
+        return { 0xEE, 0, 1 /* queen */, 3 /* 3x4 */, static_cast<uint8_t>(combo & 3), static_cast<uint8_t>((combo >> 2) & 3), static_cast<uint8_t>((combo >> 4) & 3), static_cast<uint8_t>((combo >> 6) & 3), 0, 1, static_cast<uint8_t>(pos), static_cast<uint8_t>(st) };
+    }
     size_t nr = 256 * N_RASTER_SHAPES * 3, np = 16 * N_PROFILE_SIZES;
     if (k < nr)
     {
@@ -64,6 +75,17 @@ static va::GridSpec enumerated_spec(vg::Src& s)
     sp.uniform_border_ctor = s.u8() % 2 == 1;
     sp.dy = 1.5;
     sp.dx = 2;
+    if (s.u8() == 1 && !profile)
+    {
+        // one override entry: positions 0..11 in range (row-major), 12 = row out of range,
+        // 13 = column out of range
+        size_t pos = s.u8() % 14;
+        va::Override ov;
+        ov.row = pos < 12 ? pos / sp.cols : (pos == 12 ? sp.rows : 0);
+        ov.col = pos < 12 ? pos % sp.cols : (pos == 13 ? sp.cols : 0);
+        ov.status = stat[s.u8() % 4];
+        sp.overrides.push_back(ov);
+    }
     return sp;
 }
 
